@@ -23,10 +23,10 @@ const OUTCOMES: [&str; 7] = ["refused", "closed_after_accept", "closed_idle", "s
 
 /// A scripted node: a listener (that can be taken down and brought back on the same port)
 /// plus one thread per connection. `armed` is the behaviour for the NEXT request.
-struct FakeNode {
-    port: u16,
+pub(crate) struct FakeNode {
+    pub(crate) port: u16,
     armed: Arc<Mutex<String>>,
-    served: Arc<AtomicU64>,    // requests seen
+    pub(crate) served: Arc<AtomicU64>,    // requests seen
     conns: Arc<Mutex<Vec<TcpStream>>>,
     listening: Arc<AtomicBool>,
     stop: Arc<AtomicBool>,
@@ -74,7 +74,7 @@ fn read_frame(s: &mut TcpStream) -> Option<(u64, Vec<u8>)> {
 }
 
 impl FakeNode {
-    fn start() -> Arc<FakeNode> {
+    pub(crate) fn start() -> Arc<FakeNode> {
         let l = TcpListener::bind("127.0.0.1:0").unwrap();
         let port = l.local_addr().unwrap().port();
         l.set_nonblocking(true).unwrap();
@@ -154,7 +154,7 @@ impl FakeNode {
     }
 
     /// Put the node into the mode for the next attempt.
-    fn arm(&self, outcome: &str) {
+    pub(crate) fn arm(&self, outcome: &str) {
         if outcome == "refused" {
             // nothing listens and every existing connection is gone
             if self.listening.load(Ordering::SeqCst) {
@@ -189,7 +189,7 @@ impl FakeNode {
             *self.armed.lock().unwrap() = outcome.to_string();
         }
     }
-    fn shutdown(&self) {
+    pub(crate) fn shutdown(&self) {
         self.stop.store(true, Ordering::SeqCst);
         *self.listener.lock().unwrap() = None;
         *self.holder.lock().unwrap() = None;
